@@ -702,17 +702,18 @@ def replay(case: dict) -> list[str]:
 # their own clause name '<clause>@<tags>' so that they neither hide nor crowd out the others
 # (tags of repaired findings - first-candidate>1, first-subregion>1, origin-region at the parent qualifiers,
 # prepeptide-post-origin, origin-feature-outside, exons-span-region - are still computed as a description of the
-# case but no longer name a clause: C12-F1..F4, F6, F9 are fixed in /repo (.., 85f7c167, b57beded); their cases
+# case but no longer name a clause (likewise numbers-not-contiguous): C12-F1..F4, F6, F9, F7 are fixed in
+# /repo (.., 85f7c167, b57beded, 7c3738fc); their cases
 # are judged under the bare clause names again and their predicates below cannot match any clause name)
-_CONTENT_TAGS = ["numbers-not-contiguous", "whole-circle-region", "extract-order-differs", "frameshifted-gene-cut"]
+_CONTENT_TAGS = ["whole-circle-region", "extract-order-differs", "frameshifted-gene-cut"]
 _LOADING_TAGS = list(_CONTENT_TAGS)
 RELEVANT = {
     "sequence": ["whole-circle-region"],
-    "numbering-from-1": ["numbers-not-contiguous", "whole-circle-region"],
-    "candidate-protocluster-refs": ["numbers-not-contiguous", "whole-circle-region"],
+    "numbering-from-1": ["whole-circle-region"],
+    "candidate-protocluster-refs": ["whole-circle-region"],
     "core-locations": ["whole-circle-region"],
-    "region-candidate-refs": ["numbers-not-contiguous", "whole-circle-region"],
-    "region-subregion-refs": ["numbers-not-contiguous", "whole-circle-region"],
+    "region-candidate-refs": ["whole-circle-region"],
+    "region-subregion-refs": ["whole-circle-region"],
     "reloads-one-region": _LOADING_TAGS,
     "reloaded-same-content": _LOADING_TAGS + ["parts-against-strand", "prepeptide-over-origin"],
     "reloaded-after-ref-repair": _CONTENT_TAGS + ["parts-against-strand", "prepeptide-over-origin"],
